@@ -20,6 +20,10 @@ type Case struct {
 	Prop string          `json:"prop"`
 	Reps  int             `json:"reps,omitempty"`
 	Entry string          `json:"entry,omitempty"` // "call" (default) | "convert" | "redefine"
+	// Filter (entry "redefine"): when HasFilter, Redefine gets an input
+	// filter accepting exactly these universe types.
+	Filter    []int `json:"filter,omitempty"`
+	HasFilter bool  `json:"hasFilter,omitempty"`
 	Sc    *Scenario       `json:"sc,omitempty"`
 	X    json.RawMessage `json:"x,omitempty"` // property-specific payload
 	Note string          `json:"note,omitempty"`
